@@ -96,7 +96,7 @@ func GenLeaf(t *rapid.T, tab Table, o ClauseOpt) Clause {
 			for i := range li {
 				li[i] = intConstFor(t, c)
 			}
-			l = Clause{Op: "leaf", Col: c.Name, Comp: "in", Arg: "list", LI: li}
+			l = Clause{Op: "leaf", Col: c.Name, Comp: "in", Arg: "list", LI: li, ListForm: rapid.IntRange(0, 2).Draw(t, "listform")}
 		case pick == 5:
 			l = NoArg(c.Name, rapid.SampledFrom([]string{"isnull", "isnotnull"}).Draw(t, "comp"))
 		case pick == 6:
@@ -172,7 +172,7 @@ func GenLeaf(t *rapid.T, tab Table, o ClauseOpt) Clause {
 			for i := range ls {
 				ls[i] = strConstFor(t, c)
 			}
-			l = Clause{Op: "leaf", Col: c.Name, Comp: "in", Arg: "list", LS: ls}
+			l = Clause{Op: "leaf", Col: c.Name, Comp: "in", Arg: "list", LS: ls, ListForm: rapid.IntRange(0, 1).Draw(t, "listform")}
 		case pick == 5:
 			l = NoArg(c.Name, rapid.SampledFrom([]string{"isnull", "isnotnull"}).Draw(t, "comp"))
 		case pick == 6 && !o.NoLike:
